@@ -31,6 +31,8 @@ type flight struct {
 	before snapshot
 	sweepy bool
 	busy   *cOwner
+
+	everBlocked bool
 }
 
 type world struct {
@@ -52,6 +54,7 @@ type world struct {
 	flights []*flight
 	labels  map[string]int
 	diags   map[string]int
+	evMain  map[string]int // model events before the final drain
 }
 
 func newWorld(rt *rapid.T, prof *profile, nClients int) *world {
@@ -218,8 +221,10 @@ func (w *world) issue(c *cClient, op *opSpec) {
 	}()
 	synctest.Wait()
 
-	inf, out := w.m.issue(op)
+	inf := &inflight{op: op, phase: "start"}
 	fl.inf = inf
+	w.observeInto(fl)
+	out := w.m.run(inf)
 	w.settle(fl, out)
 	w.checkQuiescent()
 }
@@ -238,6 +243,37 @@ func (fl *flight) observe() (res *nfsv4.Compound4res, blocked string) {
 		return nil, at
 	}
 	return nil, "wait"
+}
+
+// observeInto records what the real call did for the few places where
+// the model accepts two answers, and how many other requests are in flight.
+func (w *world) observeInto(fl *flight) {
+	n := 0
+	for _, x := range w.flights {
+		if x != fl {
+			n++
+		}
+	}
+	w.m.otherFlights = n
+	inf := fl.inf
+	inf.obsHave = true
+	inf.obsBlocked, inf.obsMain = "", 0
+	select {
+	case res := <-fl.done:
+		fl.done <- res
+		if res != nil {
+			if mi := mainIndex(fl.op); len(res.Resarray) > mi {
+				inf.obsMain = resStatus(res.Resarray[mi])
+			} else if len(res.Resarray) > 0 {
+				inf.obsMain = resStatus(res.Resarray[len(res.Resarray)-1])
+			}
+		}
+	default:
+		inf.obsBlocked = fl.ctl.where()
+		if inf.obsBlocked == "" {
+			inf.obsBlocked = "wait"
+		}
+	}
 }
 
 // settle compares the model's prediction with what the real call did.
@@ -263,6 +299,7 @@ func (w *world) settle(fl *flight, out outcome) {
 		w.fail(class, "step %d %s: the request %s, the model expects it to %s (%s)", op.N, op.Kind, got, want, out.why)
 	}
 	if blocked != "" {
+		fl.everBlocked = true
 		op.Out = "blocked@" + blocked
 		if blocked == "wait" {
 			fl.inf.waitOn.waiters++
@@ -334,7 +371,9 @@ func (w *world) settle(fl *flight, out outcome) {
 		}
 	}
 	if out.pure {
-		if fl.sweepy {
+		if fl.everBlocked {
+			w.label("side_effect_check_skipped_request_was_blocked")
+		} else if fl.sweepy {
 			w.label("side_effect_check_skipped_reclaim_due")
 		} else if after := w.snap(); after != fl.before {
 			class := out.class
@@ -367,12 +406,14 @@ func (w *world) release(fl *flight) {
 	}
 	close(fl.ctl.release)
 	synctest.Wait()
+	w.observeInto(fl)
 	out := w.m.run(fl.inf)
 	w.settle(fl, out)
 	st.Out = fl.op.Out
 	for _, x := range waiters {
 		x.inf.waitOn.waiters--
 		x.inf.waitOn = nil
+		w.observeInto(x)
 		out := w.m.run(x.inf)
 		w.settle(x, out)
 		st.Out += fmt.Sprintf("; waiter %d: %s", x.op.N, x.op.Out)
